@@ -33,6 +33,8 @@ class RemoveFutureImports(SimpleCodemod):
     ):
         match original_node.module:
             case cst.Name(value="__future__"):
+                if not self.node_is_selected(original_node):
+                    return updated_node
                 match original_node.names:
                     case cst.ImportStar():
                         names = [
